@@ -88,7 +88,9 @@ def m_heap_msa(dev):
 def m_heap_range_empty(dev):
     cf, P = cfg_of(dev["cfg"]), dev["P"]
     # symptom: the content (a sum over all stored entries) is right, the emptiness test (pops the heap) is not
-    return cf["ct"] == "HEAP" and all(d["path"].startswith("obs.cols_set") and d["path"].endswith(".zc") for d in dev["diffs"]) \
+    # (or, with lazy swaps, an entry of a row that sums to zero survives and meets a row the dictionaries forgot)
+    return cf["ct"] == "HEAP" and all(d["path"].startswith("obs.cols_set") and (d["path"].endswith(".zc") or d["path"].endswith(".exception"))
+                                      for d in dev["diffs"]) \
         and any(a["op"] in dc.RANGE_OPS and target_emptied(a, o, P) for a, o in steps_of(dev))
 
 
@@ -308,8 +310,8 @@ def main(tier):
                 env = {"VF_P": str(P), "VF_NR": str(NR), "VF_CTOR": str(ctor), "VF_RESERVE": "4", "VF_FILTER": filt}
                 work = os.path.join(vf.BUILD, "work", "%s_%s_%s_%d_%d" % (PROP, part, cname, ctor, os.getpid()))
                 big = g.nedges > 120000
-                kw = dict(shards=1, rnd=rnd, walks=(150 if quick else 600), walk_len=8, walk_edges=10,
-                          max_edges_per_state=(40 if big else None))
+                kw = dict(shards=1, rnd=rnd, walks=(150 if quick else 300), walk_len=8, walk_edges=10,
+                          max_edges_per_state=(12 if big else None))
                 tb = comp_tree_banned(g) if comp else None
                 if comp:
                     kw["tree_banned_keep"] = 3 if quick else 8
